@@ -13,13 +13,15 @@ Require Import Lia.
 Open Scope Z_scope.
 
 Section Twin.
-Variable Bf : string -> value.
+Variable Bf : ftab.
+(* the bodies of the user functions read no function name as data *)
+Hypothesis Hnob : forall nm body, ft_body Bf nm = Some body -> nobe Bf body = true.
 
 Definition stuck (r : tree_result) : Prop := r = TRefused \/ r = TFuel.
 
 Theorem stmt_relocation t mc1 c1 m1 mc2 c2 m2 o1 o2 n W1' res :
   bready Bf mc1 c1 m1 -> bready Bf mc2 c2 m2 ->
-  wstmt t = true -> wfb t = true -> nobs t = true ->
+  wstmt t = true -> wfb t = true -> nobs Bf t = true ->
   wrel Bf Bf o1 o2 (wof (mc_vm mc1)) (wof (mc_vm mc2)) ->
   ssem Bf n (wof (mc_vm mc1)) t = Some (W1', res) ->
   stuck (snd (run_tree false mc1 t)) \/ stuck (snd (run_tree false mc2 t)) \/
@@ -29,7 +31,7 @@ Theorem stmt_relocation t mc1 c1 m1 mc2 c2 m2 o1 o2 n W1' res :
    (exists c m, bready Bf (fst (run_tree false mc2 t)) c m)).
 Proof.
   intros R1 R2 Hw Hb Hn HR HM.
-  destruct (ssem_related Bf Bf o1 o2 n t _ _ W1' res Hw Hn HR HM) as (W2' & HM2 & HR').
+  destruct (ssem_related Bf Bf (fun _ => eq_refl) Hnob o1 o2 n t _ _ W1' res Hw Hn HR HM) as (W2' & HM2 & HR').
   pose proof (stmt_step Bf t mc1 c1 m1 n W1' res R1 Hw Hb HM) as S1.
   pose proof (stmt_step Bf t mc2 c2 m2 n W2' res R2 Hw Hb HM2) as S2.
   unfold stmt_outcome, stuck in *.
@@ -52,7 +54,7 @@ Fixpoint twins (o1 o2 : list string) (mc1 mc2 : machine) (ts : list node) : Prop
 Theorem twin_sessions : forall ts mc1 c1 m1 mc2 c2 m2 o1 o2,
   bready Bf mc1 c1 m1 -> bready Bf mc2 c2 m2 ->
   wrel Bf Bf o1 o2 (wof (mc_vm mc1)) (wof (mc_vm mc2)) ->
-  Forall (fun t => wstmt t = true /\ wfb t = true /\ nobs t = true) ts ->
+  Forall (fun t => wstmt t = true /\ wfb t = true /\ nobs Bf t = true) ts ->
   twins o1 o2 mc1 mc2 ts.
 Proof.
   induction ts as [|t r IH]; intros mc1 c1 m1 mc2 c2 m2 o1 o2 R1 R2 HR Hall; [exact I|].
